@@ -173,7 +173,7 @@ pub fn unknown_name() -> BoxedStrategy<String> {
         4 => prop::sample::select(vec![
             "search", "", "x", "i", "ids", "kin", "kinds", "contents", "created_a", "created_at2", "sig2", "si",
             "pubke", "pubkeys", "tag", "tagss", "conten", "#e", "relay", "ots", "ID", "Kind", "limit", "since",
-            "until", "authors", "#", "#ee", "lim", "unti"
+            "until", "authors", "#", "#ee", "lim", "unti", "#_", "#[", "#1", "#`", "#^", "# "
         ])
         .prop_map(|s| s.to_string()),
         1 => crate::model::rich_string(6),
@@ -184,7 +184,7 @@ pub fn unknown_name() -> BoxedStrategy<String> {
 fn json_scalar() -> BoxedStrategy<String> {
     prop_oneof![
         3 => prop::sample::select(vec![
-            "0", "-0", "1", "0.5", "1e9", "-12.5E-3", "true", "false", "null", "\"\"", "\"}\"", "\"]\"", "\"\\\"\"",
+            "0", "-0", "1", "0.5", "1e9", "-12.5E-3", "1e+21", "6.02E+23", "1E+2", "-0.0e-0", "true", "false", "null", "\"\"", "\"}\"", "\"]\"", "\"\\\"\"",
             "\"\\\\\"", "123456789012345678901234567890", "[]", "{}", "\"a,b\"", "\"{\\\"k\\\":1}\"", "9", "10"
         ])
         .prop_map(|s| s.to_string()),
